@@ -548,6 +548,41 @@ BOUNDED_NEXT = ('core::iter::range::<impl core::iter::traits::iterator::Iterator
                 "<core::slice::iter::Iter<'a, T> as core::iter::traits::iterator::Iterator>::next")
 
 
+BOUNDED_SOURCES = ('core::ops::range::Range', 'core::ops::range::RangeInclusive', 'core::slice::iter::Iter', 'core::slice::iter::IterMut',
+                   'heapless::vec::IntoIter', 'core::array::iter::IntoIter', 'core::option::IntoIter', 'core::option::Iter',
+                   'core::slice::iter::Chunks', 'core::slice::iter::Windows', 'heapless::histbuf::OldestOrdered', 'core::str::iter::Chars', 'core::str::iter::Bytes')
+BOUNDED_ADAPTORS = ('core::iter::adapters::map::Map', 'core::iter::adapters::filter::Filter', 'core::iter::adapters::filter_map::FilterMap',
+                    'core::iter::adapters::enumerate::Enumerate', 'core::iter::adapters::rev::Rev', 'core::iter::adapters::take::Take',
+                    'core::iter::adapters::skip::Skip', 'core::iter::adapters::step_by::StepBy', 'core::iter::adapters::copied::Copied',
+                    'core::iter::adapters::cloned::Cloned', 'core::iter::adapters::peekable::Peekable', 'core::iter::adapters::take_while::TakeWhile',
+                    'core::iter::adapters::skip_while::SkipWhile', 'core::iter::adapters::inspect::Inspect', 'core::iter::adapters::fuse::Fuse',
+                    'core::iter::adapters::map_while::MapWhile')
+BOUNDED_BOTH = ('core::iter::adapters::chain::Chain',)
+BOUNDED_EITHER = ('core::iter::adapters::zip::Zip',)
+
+
+def bounded_iter_ty(ty, depth=0):
+    """the iterator type yields finitely many items whatever its closures do: a bounded source (integer range, slice, fixed
+    container) under adaptors that never yield more items than their source"""
+    if not isinstance(ty, dict) or depth > 8:
+        return False
+    if ty.get('k') == 'ref':
+        return bounded_iter_ty(ty.get('ty'), depth + 1)
+    if ty.get('k') != 'adt':
+        return False
+    path = ty.get('path', '')
+    targs = [a.get('ty') for a in ty.get('args', []) if isinstance(a, dict) and 'ty' in a]
+    if path in BOUNDED_SOURCES:
+        return True
+    if path in BOUNDED_ADAPTORS:
+        return bool(targs) and bounded_iter_ty(targs[0], depth + 1)
+    if path in BOUNDED_BOTH:
+        return len(targs) >= 2 and bounded_iter_ty(targs[0], depth + 1) and bounded_iter_ty(targs[1], depth + 1)
+    if path in BOUNDED_EITHER:
+        return len(targs) >= 2 and (bounded_iter_ty(targs[0], depth + 1) or bounded_iter_ty(targs[1], depth + 1))
+    return False
+
+
 def loops(res, facts, rankings=None):
     """every loop of a reachable function is driven by a bounded iterator whose exhaustion leaves the loop, is a counted
     loop, or has a ranking function: an integer place that the interpreter found strictly monotone on every back edge, at
@@ -568,7 +603,8 @@ def loops(res, facts, rankings=None):
                 t = f['blocks'][b]['term']
                 if t['k'] == 'call' and 'def' in t['callee']:
                     r = t['callee'].get('resolved', {}).get('path')
-                    if r in BOUNDED_NEXT:
+                    self_ty = next((a.get('ty') for a in t['callee'].get('args', []) if isinstance(a, dict) and 'ty' in a), None)
+                    if r in BOUNDED_NEXT or (t['callee'].get('def', '').endswith('iterator::Iterator::next') and bounded_iter_ty(self_ty)):
                         # the block after next() must switch on the Option and one arm must leave the loop
                         nb = t.get('target')
                         seen = set()
@@ -579,7 +615,7 @@ def loops(res, facts, rankings=None):
                                 succ = term_succs(tt)
                                 if any(s not in body for s in succ) or any(leads_out(f, s, body) for s in succ):
                                     ok = True
-                                    why = 'driven by %s' % r.split('::')[-3:]
+                                    why = 'driven by %s' % ((r or t['callee'].get('def_with_args', '?')).split('::')[-3:],)
                                 break
                             if tt['k'] == 'goto':
                                 nb = tt['target']
